@@ -258,7 +258,14 @@ def main(argv):
             # contain no proofs (Cxx/Model.v), so they may still build: run them anyway, so that the spec
             # oracle can look for a concrete failing input (DESIGN.md section 2, violation protocol).
             rcm, outm = sh("timeout 3000 make -k -j16 theories/Extract/Dispatch.vo", cwd=COQ, timeout=3100)
-            okd, outd = build_driver() if rcm == 0 else (False, "coq build failed")
+            if rcm == 0:
+                okd, outd = build_driver()
+            elif os.path.exists(os.path.join(ROOT, "ocaml", "driver")):
+                # not even the models build: judge the cases with the model/oracle extracted by the last successful build
+                okd, outd = True, ""
+                notes.append("Coq build failed; cases judged by the previously extracted model and oracle")
+            else:
+                okd, outd = False, "coq build failed"
         okh, outh = build_gen_and_harness()
         if prop.get("race") and (tier == "thorough" or prop.get("race_quick")):
             okr, outr = build_gen_and_harness(race=True, name="zapdrive-race")
